@@ -227,8 +227,14 @@ class MemberBits(SymInt, metaclass=MemberBitsMeta):
         return -self.popcount(), self._reinverted()
 
     def count(self, value=True):
-        if value is not True:
-            raise core.Inconclusive('unsupported: count(False)')
+        if value not in (True, False):
+            raise ValueError(f'can only count True or False, not {value!r}')
+        if value is False or (value == 0 and value is not True):
+            # bin(self)[2:].count('0'): zeros below the highest set bit; bin(0) == '0b0' has one zero
+            if _is_conc(self.e):
+                return bin(self.e)[2:].count('0')
+            r = self.bit_length() - self.popcount()
+            return SymInt(z3.If(self.e == 0, z3.BitVecVal(1, core.W), _bv(r)))
         c = self.popcount()
         return c.e if _is_conc(c.e) else c
 
